@@ -218,6 +218,7 @@ def gen_case(streams, tier):
     min_int = None if (exhaust or f.random() < 0.4) else 30
     return {"static": s, "stmts": st["stmts"], "zeroed": zeroed, "any_state": any_state,
             "min_int": min_int, "allow_resets": f.random() < 0.7, "idle_measured": w.random() < 0.4,
+            "api": w.choice(["ops", "ops", "functions", "context_manager"]),
             "dirty_angles": [qgen.rand_angle(w) for _ in any_state]}
 
 
@@ -232,24 +233,43 @@ def _build_tape(case):
     DW, Allocate, Deallocate, AS = _ENV["DynamicWire"], _ENV["Allocate"], _ENV["Deallocate"], _ENV["AllocateState"]
     dyn = {}
     ops = []
-    for wlabel, ang in zip(case["any_state"], case["dirty_angles"]):
-        ops.append(qp.RY(ang, wires=wlabel))
-        ops.append(qp.CNOT(wires=[0, wlabel]))  # entangled with a data wire: really dirty
-    for st in case["stmts"]:
-        if st[0] == "alloc":
-            _, aid, n, state, restored = st
-            ws = [DW() for _ in range(n)]
-            for j, x in enumerate(ws):
-                dyn[(aid, j)] = x
-            ops.append(Allocate(ws, state=AS(state), restored=restored))
-        elif st[0] == "dealloc":
-            ws = [v for (a, j), v in sorted(dyn.items(), key=lambda kv: kv[0][1]) if a == st[1]]
-            ops.append(Deallocate(ws))
-        else:
-            name, wires, params = st[1]
-            ws = [dyn[(x[1], x[2])] if isinstance(x, list) else x for x in wires]
-            ops.append(getattr(qp, name)(*params, wires=ws))
-    return qp.tape.QuantumScript(ops, [qp.probs(wires=list(range(case["static"])))]), dyn
+    api = case.get("api", "ops")
+    regs = {}
+    # "ops": Allocate / Deallocate operators put on the tape directly; "functions": the program calls
+    # qp.allocate(...) / qp.deallocate(...) while it is recorded; "context_manager": it enters and leaves the
+    # register qp.allocate returns (what a `with` statement does), in whatever order the history says
+    with qp.queuing.AnnotatedQueue() as q:
+        for wlabel, ang in zip(case["any_state"], case["dirty_angles"]):
+            qp.RY(ang, wires=wlabel)
+            qp.CNOT(wires=[0, wlabel])  # entangled with a data wire: really dirty
+        for st in case["stmts"]:
+            if st[0] == "alloc":
+                _, aid, n, state, restored = st
+                if api == "ops":
+                    ws = [DW() for _ in range(n)]
+                    Allocate(ws, state=AS(state), restored=restored)
+                else:
+                    reg = qp.allocate(n, state=state, restored=restored)
+                    if api == "context_manager":
+                        reg.__enter__()
+                    regs[aid] = reg
+                    ws = list(reg)
+                for j, x in enumerate(ws):
+                    dyn[(aid, j)] = x
+            elif st[0] == "dealloc":
+                ws = [v for (a, j), v in sorted(dyn.items(), key=lambda kv: kv[0][1]) if a == st[1]]
+                if api == "ops":
+                    Deallocate(ws)
+                elif api == "functions":
+                    qp.deallocate(regs[st[1]])
+                else:
+                    regs[st[1]].__exit__(None, None, None)
+            else:
+                name, wires, params = st[1]
+                ws = [dyn[(x[1], x[2])] if isinstance(x, list) else x for x in wires]
+                getattr(qp, name)(*params, wires=ws)
+        qp.probs(wires=list(range(case["static"])))
+    return qp.tape.QuantumScript.from_queue(q), dyn
 
 
 def _reference(case):
@@ -291,6 +311,7 @@ def run_case(case):
     AllocationError = _ENV["AllocationError"]
     violations = []
     counters = {"allocations": sum(1 for s in case["stmts"] if s[0] == "alloc"), "resets_inserted": 0,
+                "api:" + case.get("api", "ops"): 1,
                 "wire_reuses": 0, "reset_outcome_branches": 0}
     sig = {"allow_resets": case["allow_resets"], "min_int": case["min_int"] is not None}
 
